@@ -1,39 +1,47 @@
 import PGM.Proofs.E2EZeros
 import PGM.Properties.C08E
 import PGM.Properties.C10G
+import PGM.Properties.C02E
 import PGM.Proofs.CellsPos
 /-!
-# C10 (end to end) — declared zero cells in the model the GENERATED `estimate` returns
+# C10 (end to end) — declared zero cells through the GENERATED `_setup`, solver updates, `belief_propagation` and `project`
 
 Composition of the ties of `src/mbi/inference.py` (py2est: `__init__` zero loop, `_setup`, `estimate`, solver heads; py2inf:
-solver bodies), of `graphical_model.py` (py2gm, py2gminit: `belief_propagation` on the generated `__init__`) with the C10
-theorems, at the exp-space reading `LogOf K` of the parameters (`-np.inf` is exp-space `0`), as in C10G.
+solver bodies), of `graphical_model.py` (py2gm, py2gminit, py2gmq: `belief_propagation` / `project` on the generated `__init__`)
+with the C10 theorems, at the exp-space reading `LogOf K` of the parameters (`-np.inf` is exp-space `0`), as in C10G.
+
+What is proved (each statement is about ARBITRARY potentials / gradients / loss functions — none runs the generated
+`_marginal_loss` at `LogOf K`, see the audit finding below):
 
 * `gen_setup_zerosIn` — generated `__init__` zero loop + generated `_setup`, cold call or first call: the stored parameters
   are laid out on the model's cliques and their joint vanishes on every assignment extending a declared cell
   (warm start with a previous model: C10G `gen_warm_keeps_combine` — the zeros are `combine`d in first; that the further
   `combine(previous.potentials)` keeps them needs the previous parameters to be tables over their own cliques inside the
   same domain, and a `combine` lemma for arbitrary such tables, which is NOT proved here);
-* `gen_md_keeps_zeros` — the generated `mirror_descent` body, every loss/gradient function whose gradient is laid out on the
-  model's cliques, every iteration count, every exit: the returned parameters still have the zeros (`θ − α·dL`);
+* **`gen_md_keeps_zeros_bp`** (headline; `gen_md_keeps_zeros` with the stronger `hgrad`) — the generated `mirror_descent` body, EVERY
+  marginal oracle, EVERY loss/gradient function whose gradient is laid out on the model's cliques at the oracle's answers, every step
+  size `α`, every iteration count, every exit: the returned parameters still have the `−∞` cells (`θ − α·dL`);
   `gen_rda_rebuild_has_zeros` — the parameters RDA rebuilds, `combine(c·gbar, structural_zeros)`, have them whatever
   `gbar`; `gen_ig_update_keeps_zeros` — IG's `θ − (a/c/total)·g` keeps them;
-* **`gen_estimate_zeros_end_to_end`** (engine MD): in the object the generated `estimate` returns, every declared cell has
-  exp-space potential product `0`; hence (C10 `zero_in_all_answers`) the marginal onto ANY attribute tuple containing the
-  zero clique vanishes there — in-clique, out-of-clique and full-vector answers are `total · marginal / Z` of these
-  potentials (C01E / C02G) — and (C01E `gen_exact_inference_end_to_end`) every stored clique table is `0` there; each stored
-  table still sums to the total (`C08E.gen_estimate_answers_valid`, clause 3, same object).
+* **`gen_zero_in_all_answers_of_pots`** (independent of the solver run) — for the model built by the generated `__init__` and ANY
+  potentials with `ZerosIn`: the marginal onto any tuple containing a zero clique vanishes on the declared cells (C10
+  `zero_in_all_answers`), hence (C01E / C02E; nonnegative cells, `Z ≠ 0`) every table of the generated `belief_propagation` and every
+  answer of the generated `project` (cached or not) is `0` there;
+* `gen_md_from_setup_zeros_every_loss` — the three composed: `_setup`, then the generated `mirror_descent` with the generated oracle and
+  an ARBITRARY loss function with laid-out gradient: zeros and sign of the returned parameters, stored tables `0` on declared cells;
+  `gen_hgrad` — the layout hypothesis holds for the generated `_marginal_loss` (both metrics);
+  `gen_setup_potentials_sign`, `gen_md_keeps_sign` — exp-space sign of the parameters (`≥ 0`; `> 0` without declared zeros).
 
-`hgrad` (the gradient of the loss is laid out on the model's cliques) is PROVED for the generated `_marginal_loss`, both metrics,
-arbitrary measurements (`gen_hgrad`: `Proofs/GradLaid.lean` — `+=` by a factor keeps the domain and well-formedness of the updated
-table whatever is added; the generated `belief_propagation` keeps the layout, `C08E.gen_bp_laid`):
-**`gen_estimate_zeros_end_to_end_closed`** / `_L2` / `_L1` have no hypothesis on the loss.  The general forms remain:
-`gen_estimate_zeros_end_to_end_bp` (any loss whose gradient is laid out at the oracle's answers) and
-`gen_estimate_zeros_end_to_end` (… at every argument).
-
-**`gen_estimate_answers_valid_closed`** / `_nozeros`: `C08E.gen_estimate_answers_valid` with hypotheses on the inputs only — the
-returned parameters are nonnegative tables over the model's cliques (`gen_estimate_potentials_sign`, `Proofs/CellsPos.lean`);
-without declared zeros `Z > 0`; with declared zeros `Z ≠ 0` remains a hypothesis (the zeros may rule out every assignment).
+**Audit finding** (independent audit, `audit/scratch/c10_vacuous.lean`, `c10_sat.lean`; machine-checked as
+`C08E.md_run_degenerate_at_LogOf`, restated for this file as `md_zeros_run_degenerate_at_LogOf`).  Earlier versions stated
+`gen_estimate_zeros_end_to_end{,_bp,_closed,_L2,_L1}`, `gen_estimate_potentials_sign`, `gen_estimate_answers_valid_closed` / `_nozeros`
+about the object the generated `estimate(engine='MD')` returns AT THE SCALAR TYPE `LogOf K`.  There `mul x _ := x` / `div x _ := x`
+make the generated `_marginal_loss` constantly `⟨1⟩ = 0`, so the generated MD always takes the `ans[0] == 0` early return:
+`marginals` unset, potentials those of `_setup`.  Clause 3 (stored tables) and the `answers_valid` theorems were VACUOUS; clauses 1–2
+and the sign theorem only restated `_setup`.  All of them are DELETED.  `…_L1` with engine MD also contradicted the source:
+`mirror_descent` asserts a smooth loss (`metric='L1'` with MD raises `AssertionError` unless a step size is given).
+The bridge from these exp-space statements to a log-space (`Float`) run is the scalar homomorphism `exp`; it is exercised by the
+C08 / C10 correspondence runs, not proved (see the header of C08E).
 
 RDA / IG: the per-step facts are here (`gen_rda_rebuild_has_zeros`, `gen_ig_update_keeps_zeros`); the end-to-end statement
 for their returned pair `(mle w, w)` needs the two-sorted run described in C08E and is open.
@@ -111,7 +119,7 @@ theorem gen_ig_update_keeps_zeros (d : Dom) (cliques : List Clique) (zs : List Z
     ZerosIn d cliques zs (CliqueVec.subV theta (CliqueVec.smul k g)) :=
   zerosIn_update d cliques zs hd hcl hcn theta g k hθ hg
 
-/-! ## end to end (engine MD) -/
+/-! ## the answers computed from ANY potentials that carry the zeros (no solver run) -/
 
 /-- what `ZerosIn` gives the C01E theorems: a potential vector over the generated model's cliques -/
 theorem potsOK_of_vecOK (d : Dom) (cliques : List Clique) (hcl : ∀ c ∈ cliques, c.Nodup ∧ ∀ a ∈ c, a ∈ d.attrs)
@@ -125,26 +133,112 @@ theorem potsOK_of_vecOK (d : Dom) (cliques : List Clique) (hcl : ∀ c ∈ cliqu
     exact ⟨h1, hattrs ▸ List.Perm.refl _, ok.2.1⟩
   nonneg := hnn
 
-/-- **STRUCTURAL ZEROS, END TO END, FOR THE GENERATED CODE (engine MD).**  An estimator whose `structural_zeros` are those
-the generated `__init__` builds from the specification `zs` (C10G `gen_init_zeroVec`), a cold call or the first call; the
-generated `estimate` with engine `'MD'` (generated `_setup`, generated `mirror_descent` with the generated
-`belief_propagation` on the generated `GraphicalModel.__init__` as its oracle), every iteration count, every exit, every
-admissible behaviour of the library contracts.  Then for the returned object `g`:
+/-- **STRUCTURAL ZEROS IN EVERY ANSWER, FROM THE POTENTIALS ALONE (generated `__init__`, `belief_propagation`, `project`; exp-space
+reading; independent of the solver run).**  Let `g` be any model record (only the constructor arguments `domain`, `inCliques`, `elim`,
+`total` are read; `gmOf nx g` is what the generated `__init__` builds, under any admissible behaviour of the library contracts), and
+let `p` be ANY potential vector with `ZerosIn` on the cliques of the generated model — laid out on them, exp-space product `0` at every
+assignment extending a declared cell (`-inf` potential).  Then
 
-1. its parameters are laid out on its cliques and their exp-space product is `0` at every joint assignment extending a
-   declared cell (`-inf` potential);
-2. hence the marginal of that product onto ANY duplicate-free attribute tuple containing a zero clique vanishes at every
-   assignment extending a declared cell of it — every answer path returns `total · marginal / Z` of these parameters;
-3. if `marginals` was stored (no early return), it is the generated `belief_propagation` of the parameters, and — the
-   returned parameters being nonnegative in exp-space with `Z ≠ 0` — each stored table is `0` at the declared cells of every
-   zero clique it contains.
+1. (C10 `zero_in_all_answers`) the marginal of the product of `p` onto ANY attribute tuple containing a zero clique vanishes at every
+   assignment extending a declared cell of it;
 
-Hypotheses on the run: `hgrad` — the gradient of the loss is laid out on the model's cliques at the oracle's answer on
-parameters laid out on them (`gen_estimate_zeros_end_to_end` below asks it at EVERY argument, as before;
-`gen_estimate_zeros_end_to_end_closed` / `_L2` / `_L1` discharge it for the generated `_marginal_loss`). -/
-theorem gen_estimate_zeros_end_to_end_bp (nx : Nx) (estT : List (Loss.Meas (LogOf K)) → LogOf K)
-    (logf : Factor (LogOf K) → Factor (LogOf K)) (topEigs : List (Loss.Meas (LogOf K)) → List (LogOf K))
-    (logger : V) (cbVal : Option Cb → V) (s : Est (LogOf K)) (a : Args (LogOf K) V Cb) (hMD : a.engine = "MD")
+and if moreover the cells of `p` are nonnegative, `Z ≠ 0` and `total > 0`:
+
+2. (C01E) every table the GENERATED `belief_propagation` computes from `p` is `0` at the declared cells of every zero clique it contains;
+3. (C02E) every answer of the GENERATED `project` — on an object without `marginals` (variable elimination on `p`) and on an object
+   whose `marginals` is the generated store for `p` (cache hit or miss), for every admissible `greedy_order` — is `0` there.
+
+`gen_md_keeps_zeros_bp` supplies `ZerosIn` for the potentials the generated `mirror_descent` returns (every loss, every step size). -/
+theorem gen_zero_in_all_answers_of_pots (nx : Nx) (g : GM (LogOf K)) (hd : g.domain.WF) (hne : g.domain.attrs ≠ [])
+    (hin : ∀ c ∈ g.inCliques, c.Nodup ∧ ∀ x ∈ c, x ∈ g.domain.attrs)
+    (hadm : Admissible nx g.domain g.inCliques (modeOf g.elim))
+    (zs : List ZeroSpec) (p : CliqueVec (LogOf K)) (hZI : ZerosIn g.domain (gmOf nx g).cliques zs p) :
+    (∀ z ∈ zs, ∀ (as : List Attr) (σ : Attr → Nat), (∀ x ∈ z.zc, x ∈ as) → Hits z σ → g.domain.Valid σ →
+      marginal g.domain p as σ = 0) ∧
+    ((∀ q ∈ p, ∀ x ∈ q.2.vals.data.toList, 0 ≤ x.v) → partition g.domain p ≠ 0 → 0 < g.total.v →
+      (∀ z ∈ zs, ∀ c ∈ (gmOf nx g).cliques, (∀ x ∈ z.zc, x ∈ c) → ∀ σ, g.domain.Valid σ → Hits z σ →
+        (((bpO nx g p).get c).sem σ).v = 0) ∧
+      (∀ z ∈ zs, ∀ (greedy : Dom → List Clique → List Attr → List Attr) (b : Bool) (attrs : List Attr),
+        attrs.Nodup → (∀ x ∈ attrs, x ∈ g.domain.attrs) → (∀ x ∈ z.zc, x ∈ attrs) →
+        GMQGen.ElimOK g.domain attrs (greedy g.domain ((gmOf nx g).cliques ++ [attrs]) (g.domain.invert attrs)) →
+        ∀ σ, g.domain.Valid σ → Hits z σ →
+        ((C02E.genProjectU nx g.domain g.inCliques (modeOf g.elim) g.total p greedy b attrs).sem σ).v = 0 ∧
+        ((C02E.genProjectC nx g.domain g.inCliques (modeOf g.elim) g.total p greedy b attrs).sem σ).v = 0)) := by
+  have hmz : ∀ z ∈ zs, ∀ (as : List Attr) (σ : Attr → Nat), (∀ x ∈ z.zc, x ∈ as) → Hits z σ → g.domain.Valid σ →
+      marginal g.domain p as σ = 0 := fun z hzm as σ hzc hit hσ =>
+    zero_in_all_answers_valid g.domain p z as σ hd hzc (fun τ hτ h => hZI.2 τ hτ ⟨z, hzm, h⟩) hσ hit
+  refine ⟨hmz, fun hnn hZ htot => ?_⟩
+  have hcl := (gen_init_cliques_ok nx g.domain g.inCliques g.total (modeOf g.elim) hd hne hin hadm).2.2
+  have hpots : PotsOK g.domain (gmOf nx g).cliques p := potsOK_of_vecOK _ _ hcl p hZI.1 hnn
+  have hcall : C02E.CallOK nx g.domain g.inCliques (modeOf g.elim) g.total p := ⟨hd, hne, hin, hadm, hpots, htot, hZ⟩
+  refine ⟨fun z hzm c hc hzc σ hσ hit => ?_, fun z hzm greedy b attrs hnd hsub hzc hg σ hσ hit => ⟨?_, ?_⟩⟩
+  · have key := (gen_exact_inference_end_to_end nx g.domain g.inCliques (modeOf g.elim) g.total hd hne hin hadm p hpots hZ c hc
+      σ hσ).2
+    exact key.trans (by rw [hmz z hzm c σ hzc hit hσ, mul_zero, zero_div])
+  · rw [(C02E.gen_project_uncached_end_to_end hcall greedy b attrs hnd hsub hg σ hσ).2, hmz z hzm attrs σ hzc hit hσ, mul_zero,
+      zero_div]
+  · rw [(C02E.gen_project_cached_end_to_end hcall greedy b attrs hnd hsub hg σ hσ).2, hmz z hzm attrs σ hzc hit hσ, mul_zero,
+      zero_div]
+
+/-! ## sign of the parameters (exp-space reading) -/
+
+/-- the parameters `_setup` stores on a cold call / the first call: `CliqueVector.zeros(domain, cliques)` combined with the
+structural zeros -/
+theorem gen_theta0_eq (gmc : Dom → List Clique → Option (List Attr) → List Clique) (s : Est (LogOf K))
+    (zs : List ZeroSpec) (hzs : s.cfg.structural_zeros = zeroVec s.cfg.domain zs)
+    (hfresh : s.cfg.warm_start = false ∨ s.model = none) (ms : List (Loss.Meas (LogOf K))) :
+    theta0 gmc s ms
+      = CliqueVec.combine (CliqueVec.zerosV s.cfg.domain (modelCliques gmc s.cfg ms)) (zeroVec s.cfg.domain zs) := by
+  unfold theta0
+  rw [← hzs]
+  rcases hfresh with h | h
+  · simp [Engine.initialTheta, cfgOf, h]
+  · obtain ⟨c, m, g⟩ := s
+    simp only at h
+    subst h
+    exact C13.first_call_initial (cfgOf c) _
+
+/-- **sign of the parameters `_setup` stores** (cold or first call): every cell is `≥ 0` in exp-space (`exp` of a log-potential;
+`-inf ↦ 0`), and `> 0` when no structural zero is declared -/
+theorem gen_setup_potentials_sign (gmc : Dom → List Clique → Option (List Attr) → List Clique) (s : Est (LogOf K))
+    (zs : List ZeroSpec) (hzs : s.cfg.structural_zeros = zeroVec s.cfg.domain zs)
+    (hfresh : s.cfg.warm_start = false ∨ s.model = none) (ms : List (Loss.Meas (LogOf K))) :
+    (∀ p ∈ theta0 gmc s ms, ∀ x ∈ p.2.vals.data.toList, 0 ≤ x.v) ∧
+    (zs = [] → ∀ p ∈ theta0 gmc s ms, ∀ x ∈ p.2.vals.data.toList, 0 < x.v) := by
+  have hθ := gen_theta0_eq gmc s zs hzs hfresh ms
+  refine ⟨?_, fun h0 => ?_⟩
+  · show CellsPos.VecP (fun x : K => 0 ≤ x) (theta0 gmc s ms)
+    rw [hθ]; exact CellsPos.theta0_nonneg _ _ zs
+  · subst h0
+    show CellsPos.VecP (fun x : K => 0 < x) (theta0 gmc s ms)
+    rw [hθ]; exact CellsPos.theta0_pos _ _
+
+/-- **the generated `mirror_descent` keeps the sign** (`CellsPos.md_P`): every oracle, EVERY loss/gradient function, every
+iteration count, every exit — the update `theta - alpha*dL` is a cellwise product of exp-space values, for every `alpha`, `dL` -/
+theorem gen_md_keeps_sign (bp : CliqueVec (LogOf K) → CliqueVec (LogOf K))
+    (lossgrad : CliqueVec (LogOf K) → LogOf K × CliqueVec (LogOf K)) (iters : Nat) (theta0 : CliqueVec (LogOf K))
+    (total : LogOf K) :
+    ((∀ p ∈ theta0, ∀ x ∈ p.2.vals.data.toList, 0 ≤ x.v) →
+      ∀ p ∈ (InfG.mirrorDescent bp lossgrad iters theta0 total).potentials, ∀ x ∈ p.2.vals.data.toList, 0 ≤ x.v) ∧
+    ((∀ p ∈ theta0, ∀ x ∈ p.2.vals.data.toList, 0 < x.v) →
+      ∀ p ∈ (InfG.mirrorDescent bp lossgrad iters theta0 total).potentials, ∀ x ∈ p.2.vals.data.toList, 0 < x.v) :=
+  ⟨fun h => CellsPos.md_P (fun x : K => 0 ≤ x) zero_le_one (fun _ _ => mul_nonneg) bp lossgrad iters theta0 total h,
+   fun h => CellsPos.md_P (fun x : K => 0 < x) zero_lt_one (fun _ _ => mul_pos) bp lossgrad iters theta0 total h⟩
+
+/-! ## `_setup` + the generated `mirror_descent` with the generated oracle, EVERY loss (not the degenerate `LogOf` loss) -/
+
+/-- **STRUCTURAL ZEROS THROUGH `_setup` AND THE GENERATED `mirror_descent`, FOR EVERY LOSS/GRADIENT FUNCTION.**  The model `g0` the
+generated `_setup` stores (cold call or first call; `structural_zeros` those the generated `__init__` builds from `zs`); the generated
+`mirror_descent` body started from `g0.potentials` with the generated `belief_propagation` on the generated `__init__` as oracle and
+an ARBITRARY function `lossgrad` in place of `_marginal_loss` (so the statement is not subject to `md_run_degenerate_at_LogOf`: the
+loop runs whenever `lossgrad` is not `0` at the first answer), whose gradient is laid out on the model's cliques at the oracle's
+answers (`hgrad`; `gen_hgrad` proves it for the generated `_marginal_loss`).  Every iteration count, every exit:
+
+1. the returned parameters have the zeros (`ZerosIn`) and nonnegative cells;
+2. if `marginals` was stored it is the generated `belief_propagation` of the returned parameters, and (when `Z ≠ 0`, `total > 0`)
+   every stored table is `0` at the declared cells of every zero clique it contains. -/
+theorem gen_md_from_setup_zeros_every_loss (nx : Nx) (estT : List (Loss.Meas (LogOf K)) → LogOf K)
+    (s : Est (LogOf K)) (a : Args (LogOf K) V Cb)
     (zs : List ZeroSpec) (hzs : s.cfg.structural_zeros = zeroVec s.cfg.domain zs)
     (hfresh : s.cfg.warm_start = false ∨ s.model = none)
     (hd : s.cfg.domain.WF) (hne : s.cfg.domain.attrs ≠ []) (hsizes : ∀ p ∈ s.cfg.domain, 0 < p.2)
@@ -152,107 +246,56 @@ theorem gen_estimate_zeros_end_to_end_bp (nx : Nx) (estT : List (Loss.Meas (LogO
     (hadm : Admissible nx s.cfg.domain (inCliques s.cfg (measOf s a)) (modeOf s.cfg.elim_order))
     (hz : ∀ z ∈ zs, z.zc.Nodup ∧ (∀ x ∈ z.zc, x ∈ s.cfg.domain.attrs) ∧
       ∃ q ∈ modelCliques (gmC nx) s.cfg (measOf s a), JT.subset z.zc q = true)
+    (lossgrad : CliqueVec (LogOf K) → LogOf K × CliqueVec (LogOf K))
     (hgrad : ∀ θ, VecOK s.cfg.domain (modelCliques (gmC nx) s.cfg (measOf s a)) θ →
-      VecOK s.cfg.domain (modelCliques (gmC nx) s.cfg (measOf s a))
-        (lossOf s.cfg (freshGM (gmC nx) estT s a) (measOf s a) (bpO nx (freshGM (gmC nx) estT s a) θ)).2) :
-    ∃ g, (estimateG (gmC nx) estT (bpO nx) (mleO logf nx) topEigs logger cbVal s a).2.2 = some g ∧
-      g.cliques = modelCliques (gmC nx) s.cfg (measOf s a) ∧
-      ZerosIn s.cfg.domain g.cliques zs g.potentials ∧
-      (∀ z ∈ zs, ∀ (as : List Attr) (σ : Attr → Nat), as.Nodup → (∀ x ∈ as, x ∈ s.cfg.domain.attrs) →
-        (∀ x ∈ z.zc, x ∈ as) → Hits z σ → s.cfg.domain.Valid σ → marginal s.cfg.domain g.potentials as σ = 0) ∧
-      (∀ m, g.marginals = some m → (∀ p ∈ g.potentials, ∀ x ∈ p.2.vals.data.toList, 0 ≤ x.v) →
-        partition s.cfg.domain g.potentials ≠ 0 →
-        m = bpO nx g g.potentials ∧
-        ∀ z ∈ zs, ∀ c ∈ g.cliques, (∀ x ∈ z.zc, x ∈ c) → ∀ σ, s.cfg.domain.Valid σ → Hits z σ →
-          ((m.get c).sem σ).v = 0) := by
-  have he : ValidEngine a.engine := Or.inl hMD
-  obtain ⟨h1, _, _⟩ := gen_estimate_closed (gmC nx) estT (bpO nx) (mleO logf nx) topEigs logger cbVal s a he
-  have hr : solverRun (gmC nx) estT (bpO nx) (mleO logf nx) topEigs s a
-      = InfG.mirrorDescent (bpO nx (freshGM (gmC nx) estT s a)) (lossOf s.cfg (freshGM (gmC nx) estT s a) (measOf s a))
-          s.cfg.iters (freshGM (gmC nx) estT s a).potentials (freshGM (gmC nx) estT s a).total := by
-    simp only [solverRun, hMD]; rfl
-  -- the model's cliques are those of the generated `__init__`
+      VecOK s.cfg.domain (modelCliques (gmC nx) s.cfg (measOf s a)) (lossgrad (bpO nx (freshGM (gmC nx) estT s a) θ)).2)
+    (iters : Nat) :
+    ZerosIn s.cfg.domain (modelCliques (gmC nx) s.cfg (measOf s a)) zs
+      (InfG.mirrorDescent (bpO nx (freshGM (gmC nx) estT s a)) lossgrad iters (freshGM (gmC nx) estT s a).potentials
+        (freshGM (gmC nx) estT s a).total).potentials ∧
+    (∀ p ∈ (InfG.mirrorDescent (bpO nx (freshGM (gmC nx) estT s a)) lossgrad iters (freshGM (gmC nx) estT s a).potentials
+        (freshGM (gmC nx) estT s a).total).potentials, ∀ x ∈ p.2.vals.data.toList, 0 ≤ x.v) ∧
+    (∀ m, (InfG.mirrorDescent (bpO nx (freshGM (gmC nx) estT s a)) lossgrad iters (freshGM (gmC nx) estT s a).potentials
+        (freshGM (gmC nx) estT s a).total).marginals = some m →
+      m = bpO nx (freshGM (gmC nx) estT s a)
+        (InfG.mirrorDescent (bpO nx (freshGM (gmC nx) estT s a)) lossgrad iters (freshGM (gmC nx) estT s a).potentials
+          (freshGM (gmC nx) estT s a).total).potentials ∧
+      (partition s.cfg.domain (InfG.mirrorDescent (bpO nx (freshGM (gmC nx) estT s a)) lossgrad iters
+          (freshGM (gmC nx) estT s a).potentials (freshGM (gmC nx) estT s a).total).potentials ≠ 0 →
+        0 < (freshGM (gmC nx) estT s a).total.v →
+        ∀ z ∈ zs, ∀ c ∈ modelCliques (gmC nx) s.cfg (measOf s a), (∀ x ∈ z.zc, x ∈ c) → ∀ σ, s.cfg.domain.Valid σ →
+          Hits z σ → ((m.get c).sem σ).v = 0)) := by
   have hcq := gen_init_cliques_ok nx s.cfg.domain (inCliques s.cfg (measOf s a)) () (modeOf s.cfg.elim_order) hd hne hin hadm
   have hcn : (modelCliques (gmC nx) s.cfg (measOf s a)).Nodup := hcq.1
   have hcl : ∀ q ∈ modelCliques (gmC nx) s.cfg (measOf s a), q.Nodup ∧ ∀ x ∈ q, x ∈ s.cfg.domain.attrs := hcq.2.2
   have h0 := gen_setup_zerosIn (gmC nx) s zs hzs hfresh (measOf s a) hd hsizes hcl hcn hz
-  have hZ := gen_md_keeps_zeros_bp s.cfg.domain _ zs hd hcl hcn (bpO nx (freshGM (gmC nx) estT s a))
-    (lossOf s.cfg (freshGM (gmC nx) estT s a) (measOf s a)) hgrad s.cfg.iters _ (freshGM (gmC nx) estT s a).total h0
-  refine ⟨_, h1, rfl, ?_, ?_, ?_⟩
-  · rw [hr]; exact hZ
-  · intro z hzm as σ hnd hsub hzc hit hσ
-    rw [hr]
-    exact zero_in_all_answers_valid s.cfg.domain _ z as σ hd hzc (fun τ hτ h => hZ.2 τ hτ ⟨z, hzm, h⟩) hσ hit
-  · intro m hm hnn hpart
-    have hbp : m = bpO nx (writeBack (freshGM (gmC nx) estT s a) (solverRun (gmC nx) estT (bpO nx) (mleO logf nx) topEigs s a))
-        (writeBack (freshGM (gmC nx) estT s a) (solverRun (gmC nx) estT (bpO nx) (mleO logf nx) topEigs s a)).potentials := by
-      have e := (E2EGen.md_inv (fun _ => True) (bpO nx (freshGM (gmC nx) estT s a))
-        (lossOf s.cfg (freshGM (gmC nx) estT s a) (measOf s a)) s.cfg.iters (freshGM (gmC nx) estT s a).potentials
-        (freshGM (gmC nx) estT s a).total trivial (fun _ _ _ _ => trivial)).2
-      have hm' : (InfG.mirrorDescent (bpO nx (freshGM (gmC nx) estT s a))
-          (lossOf s.cfg (freshGM (gmC nx) estT s a) (measOf s a)) s.cfg.iters (freshGM (gmC nx) estT s a).potentials
-          (freshGM (gmC nx) estT s a).total).marginals = some m := by rw [← hr]; exact hm
-      cases hc : InfG.eq0 (lossOf s.cfg (freshGM (gmC nx) estT s a) (measOf s a)
-          (bpO nx (freshGM (gmC nx) estT s a) (freshGM (gmC nx) estT s a).potentials)).1
-      · have := e.2 hc
-        rw [hm'] at this
-        rw [hr]
-        exact Option.some.inj this
-      · rw [(e.1 hc).2] at hm'; cases hm'
-    refine ⟨hbp, fun z hzm c hc hzc σ hσ hit => ?_⟩
-    rw [hbp]
-    have hpots : PotsOK s.cfg.domain
-        (genInit nx s.cfg.domain (inCliques s.cfg (measOf s a)) (freshGM (gmC nx) estT s a).total (modeOf s.cfg.elim_order)).cliques
-        (writeBack (freshGM (gmC nx) estT s a) (solverRun (gmC nx) estT (bpO nx) (mleO logf nx) topEigs s a)).potentials := by
-      have : (genInit nx s.cfg.domain (inCliques s.cfg (measOf s a)) (freshGM (gmC nx) estT s a).total
-          (modeOf s.cfg.elim_order)).cliques = modelCliques (gmC nx) s.cfg (measOf s a) := by
-        simp only [modelCliques, gmC, gen_init_cliques]
-      rw [this]
-      exact potsOK_of_vecOK _ _ hcl _ (by rw [hr]; exact hZ.1) hnn
-    have hcc : c ∈ (genInit nx s.cfg.domain (inCliques s.cfg (measOf s a)) (freshGM (gmC nx) estT s a).total
-        (modeOf s.cfg.elim_order)).cliques := by
-      have : (genInit nx s.cfg.domain (inCliques s.cfg (measOf s a)) (freshGM (gmC nx) estT s a).total
-          (modeOf s.cfg.elim_order)).cliques = modelCliques (gmC nx) s.cfg (measOf s a) := by
-        simp only [modelCliques, gmC, gen_init_cliques]
-      rw [this]; exact hc
-    have key := (gen_exact_inference_end_to_end nx s.cfg.domain (inCliques s.cfg (measOf s a)) (modeOf s.cfg.elim_order)
-      (freshGM (gmC nx) estT s a).total hd hne hin hadm _ hpots hpart c hcc σ hσ).2
-    have hmz : marginal s.cfg.domain
-        (writeBack (freshGM (gmC nx) estT s a) (solverRun (gmC nx) estT (bpO nx) (mleO logf nx) topEigs s a)).potentials c σ = 0 := by
-      show marginal s.cfg.domain (solverRun (gmC nx) estT (bpO nx) (mleO logf nx) topEigs s a).potentials c σ = 0
-      rw [hr]
-      exact zero_in_all_answers_valid s.cfg.domain _ z c σ hd hzc (fun τ hτ h => hZ.2 τ hτ ⟨z, hzm, h⟩) hσ hit
-    exact key.trans (by rw [hmz, mul_zero, zero_div])
-
-/-- the form with `hgrad` asked at every argument of the loss (any loss with that property) -/
-theorem gen_estimate_zeros_end_to_end (nx : Nx) (estT : List (Loss.Meas (LogOf K)) → LogOf K)
-    (logf : Factor (LogOf K) → Factor (LogOf K)) (topEigs : List (Loss.Meas (LogOf K)) → List (LogOf K))
-    (logger : V) (cbVal : Option Cb → V) (s : Est (LogOf K)) (a : Args (LogOf K) V Cb) (hMD : a.engine = "MD")
-    (zs : List ZeroSpec) (hzs : s.cfg.structural_zeros = zeroVec s.cfg.domain zs)
-    (hfresh : s.cfg.warm_start = false ∨ s.model = none)
-    (hd : s.cfg.domain.WF) (hne : s.cfg.domain.attrs ≠ []) (hsizes : ∀ p ∈ s.cfg.domain, 0 < p.2)
-    (hin : ∀ c ∈ inCliques s.cfg (measOf s a), c.Nodup ∧ ∀ x ∈ c, x ∈ s.cfg.domain.attrs)
-    (hadm : Admissible nx s.cfg.domain (inCliques s.cfg (measOf s a)) (modeOf s.cfg.elim_order))
-    (hz : ∀ z ∈ zs, z.zc.Nodup ∧ (∀ x ∈ z.zc, x ∈ s.cfg.domain.attrs) ∧
-      ∃ q ∈ modelCliques (gmC nx) s.cfg (measOf s a), JT.subset z.zc q = true)
-    (hgrad : ∀ m, VecOK s.cfg.domain (modelCliques (gmC nx) s.cfg (measOf s a))
-      (lossOf s.cfg (freshGM (gmC nx) estT s a) (measOf s a) m).2) :
-    ∃ g, (estimateG (gmC nx) estT (bpO nx) (mleO logf nx) topEigs logger cbVal s a).2.2 = some g ∧
-      g.cliques = modelCliques (gmC nx) s.cfg (measOf s a) ∧
-      ZerosIn s.cfg.domain g.cliques zs g.potentials ∧
-      (∀ z ∈ zs, ∀ (as : List Attr) (σ : Attr → Nat), as.Nodup → (∀ x ∈ as, x ∈ s.cfg.domain.attrs) →
-        (∀ x ∈ z.zc, x ∈ as) → Hits z σ → s.cfg.domain.Valid σ → marginal s.cfg.domain g.potentials as σ = 0) ∧
-      (∀ m, g.marginals = some m → (∀ p ∈ g.potentials, ∀ x ∈ p.2.vals.data.toList, 0 ≤ x.v) →
-        partition s.cfg.domain g.potentials ≠ 0 →
-        m = bpO nx g g.potentials ∧
-        ∀ z ∈ zs, ∀ c ∈ g.cliques, (∀ x ∈ z.zc, x ∈ c) → ∀ σ, s.cfg.domain.Valid σ → Hits z σ →
-          ((m.get c).sem σ).v = 0) :=
-  gen_estimate_zeros_end_to_end_bp nx estT logf topEigs logger cbVal s a hMD zs hzs hfresh hd hne hsizes hin hadm hz (fun θ _ => hgrad _)
+  have hZ := gen_md_keeps_zeros_bp s.cfg.domain _ zs hd hcl hcn (bpO nx (freshGM (gmC nx) estT s a)) lossgrad hgrad iters _
+    (freshGM (gmC nx) estT s a).total h0
+  have hnn := (gen_md_keeps_sign (bpO nx (freshGM (gmC nx) estT s a)) lossgrad iters (theta0 (gmC nx) s (measOf s a))
+    (freshGM (gmC nx) estT s a).total).1 (gen_setup_potentials_sign (gmC nx) s zs hzs hfresh (measOf s a)).1
+  refine ⟨hZ, hnn, fun m hm => ?_⟩
+  have e := (E2EGen.md_inv (fun _ => True) (bpO nx (freshGM (gmC nx) estT s a)) lossgrad iters
+    (freshGM (gmC nx) estT s a).potentials (freshGM (gmC nx) estT s a).total trivial (fun _ _ _ _ => trivial)).2
+  have hbp : m = bpO nx (freshGM (gmC nx) estT s a)
+      (InfG.mirrorDescent (bpO nx (freshGM (gmC nx) estT s a)) lossgrad iters (freshGM (gmC nx) estT s a).potentials
+        (freshGM (gmC nx) estT s a).total).potentials := by
+    cases hc : InfG.eq0 (lossgrad (bpO nx (freshGM (gmC nx) estT s a) (freshGM (gmC nx) estT s a).potentials)).1
+    · have := e.2 hc
+      rw [hm] at this
+      exact Option.some.inj this
+    · rw [(e.1 hc).2] at hm; cases hm
+  refine ⟨hbp, fun hpart htot z hzm c hc hzc σ hσ hit => ?_⟩
+  have hcs : (gmOf nx (freshGM (gmC nx) estT s a)).cliques = modelCliques (gmC nx) s.cfg (measOf s a) := by
+    rw [gmOf_cliques]; rfl
+  have hall := (gen_zero_in_all_answers_of_pots nx (freshGM (gmC nx) estT s a) hd hne hin hadm zs _ (hcs ▸ hZ)).2 hnn hpart htot
+  rw [hbp]
+  exact hall.1 z hzm c (hcs ▸ hc) hzc σ hσ hit
 
 /-- **`hgrad` holds for the generated `_marginal_loss`, both metrics**: at the answer of the generated
 `belief_propagation` (on the generated `__init__`) to parameters laid out on the model's cliques, the gradient is laid out
-on them — `C08E.gen_bp_laid` (the oracle keeps the layout) and `C08E.gen_lossOf_laid` (the gradient has the layout of the
-marginals; the measurements are arbitrary) -/
+on them — the `LogOf K` instance of the generic-scalar facts `C08E.gen_bp_laid` (the oracle keeps the layout) and
+`C08E.gen_lossOf_laid` (the gradient has the layout of the marginals; the measurements are arbitrary).  (A statement about LAYOUT
+only: the VALUE of the loss at `LogOf K` is degenerate, `C08E.md_run_degenerate_at_LogOf`.) -/
 theorem gen_hgrad (nx : Nx) (estT : List (Loss.Meas (LogOf K)) → LogOf K) (s : Est (LogOf K)) (a : Args (LogOf K) V Cb)
     (hd : s.cfg.domain.WF) (hne : s.cfg.domain.attrs ≠ [])
     (hin : ∀ c ∈ inCliques s.cfg (measOf s a), c.Nodup ∧ ∀ x ∈ c, x ∈ s.cfg.domain.attrs)
@@ -272,212 +315,63 @@ theorem gen_hgrad (nx : Nx) (estT : List (Loss.Meas (LogOf K)) → LogOf K) (s :
   rw [hcs] at hcq
   exact gen_lossOf_laid s.cfg (freshGM (gmC nx) estT s a) (measOf s a) _ hcq.1 _ hbp
 
-/-- **STRUCTURAL ZEROS, END TO END, FOR THE GENERATED CODE — NO HYPOTHESIS ON THE LOSS** (engine MD, the generated
-`_marginal_loss`, whichever metric the estimator is configured with, arbitrary measurements): the statement of
-`gen_estimate_zeros_end_to_end_bp` with `hgrad` discharged by `gen_hgrad` -/
-theorem gen_estimate_zeros_end_to_end_closed (nx : Nx) (estT : List (Loss.Meas (LogOf K)) → LogOf K)
+/-! ## audit: at `LogOf K` the generated MD run never leaves `_setup` -/
+
+/-- **AUDIT WITNESS, for the zeros statements**: at the carrier `LogOf K` the object the generated `estimate(engine='MD')` returns
+has `marginals` UNSET and exactly the parameters of `_setup` (`C08E.md_run_degenerate_at_LogOf`) — so "the returned parameters have
+the zeros" is, at this carrier, `gen_setup_zerosIn` and nothing more.  This is why the former `gen_estimate_zeros_end_to_end*`
+(clauses 1–2 a restatement of `_setup`, clause 3 vacuous) were removed and the headline is `gen_md_keeps_zeros_bp` +
+`gen_zero_in_all_answers_of_pots`, which quantify over every loss function resp. every potential vector. -/
+theorem md_zeros_run_degenerate_at_LogOf (nx : Nx) (estT : List (Loss.Meas (LogOf K)) → LogOf K)
     (logf : Factor (LogOf K) → Factor (LogOf K)) (topEigs : List (Loss.Meas (LogOf K)) → List (LogOf K))
-    (logger : V) (cbVal : Option Cb → V) (s : Est (LogOf K)) (a : Args (LogOf K) V Cb) (hMD : a.engine = "MD")
-    (zs : List ZeroSpec) (hzs : s.cfg.structural_zeros = zeroVec s.cfg.domain zs)
-    (hfresh : s.cfg.warm_start = false ∨ s.model = none)
-    (hd : s.cfg.domain.WF) (hne : s.cfg.domain.attrs ≠ []) (hsizes : ∀ p ∈ s.cfg.domain, 0 < p.2)
-    (hin : ∀ c ∈ inCliques s.cfg (measOf s a), c.Nodup ∧ ∀ x ∈ c, x ∈ s.cfg.domain.attrs)
-    (hadm : Admissible nx s.cfg.domain (inCliques s.cfg (measOf s a)) (modeOf s.cfg.elim_order))
-    (hz : ∀ z ∈ zs, z.zc.Nodup ∧ (∀ x ∈ z.zc, x ∈ s.cfg.domain.attrs) ∧
-      ∃ q ∈ modelCliques (gmC nx) s.cfg (measOf s a), JT.subset z.zc q = true) :
+    (logger : V) (cbVal : Option Cb → V) (s : Est (LogOf K)) (a : Args (LogOf K) V Cb) (hMD : a.engine = "MD") :
     ∃ g, (estimateG (gmC nx) estT (bpO nx) (mleO logf nx) topEigs logger cbVal s a).2.2 = some g ∧
-      g.cliques = modelCliques (gmC nx) s.cfg (measOf s a) ∧
-      ZerosIn s.cfg.domain g.cliques zs g.potentials ∧
-      (∀ z ∈ zs, ∀ (as : List Attr) (σ : Attr → Nat), as.Nodup → (∀ x ∈ as, x ∈ s.cfg.domain.attrs) →
-        (∀ x ∈ z.zc, x ∈ as) → Hits z σ → s.cfg.domain.Valid σ → marginal s.cfg.domain g.potentials as σ = 0) ∧
-      (∀ m, g.marginals = some m → (∀ p ∈ g.potentials, ∀ x ∈ p.2.vals.data.toList, 0 ≤ x.v) →
-        partition s.cfg.domain g.potentials ≠ 0 →
-        m = bpO nx g g.potentials ∧
-        ∀ z ∈ zs, ∀ c ∈ g.cliques, (∀ x ∈ z.zc, x ∈ c) → ∀ σ, s.cfg.domain.Valid σ → Hits z σ →
-          ((m.get c).sem σ).v = 0) :=
-  gen_estimate_zeros_end_to_end_bp nx estT logf topEigs logger cbVal s a hMD zs hzs hfresh hd hne hsizes hin hadm hz
-    (gen_hgrad nx estT s a hd hne hin hadm)
+      g.marginals = none ∧ g.potentials = theta0 (gmC nx) s (measOf s a) :=
+  md_run_degenerate_at_LogOf nx estT logf topEigs logger cbVal s a hMD
 
-/-- the case `metric='L2'`: the loss of the run is the generated `_marginal_loss` (L2) -/
-theorem gen_estimate_zeros_end_to_end_L2 (nx : Nx) (estT : List (Loss.Meas (LogOf K)) → LogOf K)
-    (logf : Factor (LogOf K) → Factor (LogOf K)) (topEigs : List (Loss.Meas (LogOf K)) → List (LogOf K))
-    (logger : V) (cbVal : Option Cb → V) (s : Est (LogOf K)) (a : Args (LogOf K) V Cb) (hMD : a.engine = "MD")
-    (zs : List ZeroSpec) (hzs : s.cfg.structural_zeros = zeroVec s.cfg.domain zs)
-    (hfresh : s.cfg.warm_start = false ∨ s.model = none)
-    (hd : s.cfg.domain.WF) (hne : s.cfg.domain.attrs ≠ []) (hsizes : ∀ p ∈ s.cfg.domain, 0 < p.2)
-    (hin : ∀ c ∈ inCliques s.cfg (measOf s a), c.Nodup ∧ ∀ x ∈ c, x ∈ s.cfg.domain.attrs)
-    (hadm : Admissible nx s.cfg.domain (inCliques s.cfg (measOf s a)) (modeOf s.cfg.elim_order))
-    (hz : ∀ z ∈ zs, z.zc.Nodup ∧ (∀ x ∈ z.zc, x ∈ s.cfg.domain.attrs) ∧
-      ∃ q ∈ modelCliques (gmC nx) s.cfg (measOf s a), JT.subset z.zc q = true)
-    (hL2 : s.cfg.metric = Metric.L2) :
-    lossOf s.cfg (freshGM (gmC nx) estT s a) (measOf s a)
-      = InfG.marginalLossL2 s.cfg.domain (freshGM (gmC nx) estT s a).cliques (measOf s a) ∧
-    ∃ g, (estimateG (gmC nx) estT (bpO nx) (mleO logf nx) topEigs logger cbVal s a).2.2 = some g ∧
-      g.cliques = modelCliques (gmC nx) s.cfg (measOf s a) ∧
-      ZerosIn s.cfg.domain g.cliques zs g.potentials ∧
-      (∀ z ∈ zs, ∀ (as : List Attr) (σ : Attr → Nat), as.Nodup → (∀ x ∈ as, x ∈ s.cfg.domain.attrs) →
-        (∀ x ∈ z.zc, x ∈ as) → Hits z σ → s.cfg.domain.Valid σ → marginal s.cfg.domain g.potentials as σ = 0) ∧
-      (∀ m, g.marginals = some m → (∀ p ∈ g.potentials, ∀ x ∈ p.2.vals.data.toList, 0 ≤ x.v) →
-        partition s.cfg.domain g.potentials ≠ 0 →
-        m = bpO nx g g.potentials ∧
-        ∀ z ∈ zs, ∀ c ∈ g.cliques, (∀ x ∈ z.zc, x ∈ c) → ∀ σ, s.cfg.domain.Valid σ → Hits z σ →
-          ((m.get c).sem σ).v = 0) :=
-  ⟨by unfold lossOf; rw [hL2], gen_estimate_zeros_end_to_end_closed nx estT logf topEigs logger cbVal s a hMD zs hzs hfresh hd hne hsizes hin hadm hz⟩
+/-! ## non-vacuity -/
+section Example
+open PGM.C01 (exD exCl)
 
-/-- the case `metric='L1'` -/
-theorem gen_estimate_zeros_end_to_end_L1 (nx : Nx) (estT : List (Loss.Meas (LogOf K)) → LogOf K)
-    (logf : Factor (LogOf K) → Factor (LogOf K)) (topEigs : List (Loss.Meas (LogOf K)) → List (LogOf K))
-    (logger : V) (cbVal : Option Cb → V) (s : Est (LogOf K)) (a : Args (LogOf K) V Cb) (hMD : a.engine = "MD")
-    (zs : List ZeroSpec) (hzs : s.cfg.structural_zeros = zeroVec s.cfg.domain zs)
-    (hfresh : s.cfg.warm_start = false ∨ s.model = none)
-    (hd : s.cfg.domain.WF) (hne : s.cfg.domain.attrs ≠ []) (hsizes : ∀ p ∈ s.cfg.domain, 0 < p.2)
-    (hin : ∀ c ∈ inCliques s.cfg (measOf s a), c.Nodup ∧ ∀ x ∈ c, x ∈ s.cfg.domain.attrs)
-    (hadm : Admissible nx s.cfg.domain (inCliques s.cfg (measOf s a)) (modeOf s.cfg.elim_order))
-    (hz : ∀ z ∈ zs, z.zc.Nodup ∧ (∀ x ∈ z.zc, x ∈ s.cfg.domain.attrs) ∧
-      ∃ q ∈ modelCliques (gmC nx) s.cfg (measOf s a), JT.subset z.zc q = true)
-    (hL1 : s.cfg.metric = Metric.L1) :
-    lossOf s.cfg (freshGM (gmC nx) estT s a) (measOf s a)
-      = InfG.marginalLossL1 s.cfg.domain (freshGM (gmC nx) estT s a).cliques (measOf s a) ∧
-    ∃ g, (estimateG (gmC nx) estT (bpO nx) (mleO logf nx) topEigs logger cbVal s a).2.2 = some g ∧
-      g.cliques = modelCliques (gmC nx) s.cfg (measOf s a) ∧
-      ZerosIn s.cfg.domain g.cliques zs g.potentials ∧
-      (∀ z ∈ zs, ∀ (as : List Attr) (σ : Attr → Nat), as.Nodup → (∀ x ∈ as, x ∈ s.cfg.domain.attrs) →
-        (∀ x ∈ z.zc, x ∈ as) → Hits z σ → s.cfg.domain.Valid σ → marginal s.cfg.domain g.potentials as σ = 0) ∧
-      (∀ m, g.marginals = some m → (∀ p ∈ g.potentials, ∀ x ∈ p.2.vals.data.toList, 0 ≤ x.v) →
-        partition s.cfg.domain g.potentials ≠ 0 →
-        m = bpO nx g g.potentials ∧
-        ∀ z ∈ zs, ∀ c ∈ g.cliques, (∀ x ∈ z.zc, x ∈ c) → ∀ σ, s.cfg.domain.Valid σ → Hits z σ →
-          ((m.get c).sem σ).v = 0) :=
-  ⟨by unfold lossOf; rw [hL1], gen_estimate_zeros_end_to_end_closed nx estT logf topEigs logger cbVal s a hMD zs hzs hfresh hd hne hsizes hin hadm hz⟩
+/-- one declared zero: the cell `b = 0` -/
+def exZs : List ZeroSpec := [⟨["b"], [[0]]⟩]
 
-/-- the hypotheses of the closed form hold on the example estimator of C08E (no declared zero: `zs = []`) -/
-example : exArgs.engine = "MD" ∧ exEst.cfg.structural_zeros = zeroVec exEst.cfg.domain [] ∧
-    (exEst.cfg.warm_start = false ∨ exEst.model = none) ∧ exEst.cfg.metric = Metric.L2 ∧
-    (∀ p ∈ exEst.cfg.domain, 0 < p.2) := by
-  refine ⟨rfl, rfl, Or.inl rfl, rfl, by decide⟩
+theorem ex_cliques : (gmOf exNx exGM).cliques = [["a", "b"], ["b", "c"]] := by decide +kernel
 
-/-! ## the answers of the returned model, hypotheses on the inputs only (engine MD) -/
+/-- the parameters `_setup` would store for `exZs`: zeros over the two cliques combined with the structural zeros -/
+def exZP : CliqueVec (LogOf ℚ) := CliqueVec.combine (CliqueVec.zerosV exD [["a", "b"], ["b", "c"]]) (zeroVec exD exZs)
 
-/-- the parameters `_setup` stores on a cold call / the first call: `CliqueVector.zeros(domain, cliques)` combined with the
-structural zeros -/
-theorem gen_theta0_eq (gmc : Dom → List Clique → Option (List Attr) → List Clique) (s : Est (LogOf K))
-    (zs : List ZeroSpec) (hzs : s.cfg.structural_zeros = zeroVec s.cfg.domain zs)
-    (hfresh : s.cfg.warm_start = false ∨ s.model = none) (ms : List (Loss.Meas (LogOf K))) :
-    theta0 gmc s ms
-      = CliqueVec.combine (CliqueVec.zerosV s.cfg.domain (modelCliques gmc s.cfg ms)) (zeroVec s.cfg.domain zs) := by
-  unfold theta0
-  rw [← hzs]
-  rcases hfresh with h | h
-  · simp [Engine.initialTheta, cfgOf, h]
-  · obtain ⟨c, m, g⟩ := s
-    simp only at h
-    subst h
-    exact C13.first_call_initial (cfgOf c) _
+theorem ex_zerosIn : ZerosIn exD (gmOf exNx exGM).cliques exZs exZP := by
+  rw [ex_cliques]
+  exact zerosIn_combine exD _ exZs (by decide) (by decide) (by decide)
+    (by intro z hz; simp only [exZs, List.mem_singleton] at hz; subst hz; exact ⟨by decide, by decide, ["a", "b"], by decide, by decide⟩)
+    (by decide) _ (vecOK_zerosV _ _ (by decide))
 
-/-- **sign of the returned parameters (engine MD, exp-space reading)**: every cell of the potentials of the object the
-generated `estimate` returns is `≥ 0` (`exp` of a log-potential; `-inf ↦ 0`), and `> 0` when no structural zero is declared —
-every loss, every iteration count, every exit (`CellsPos.md_P`: the update `theta - alpha*dL` keeps the sign for every
-`alpha`, `dL`) -/
-theorem gen_estimate_potentials_sign (nx : Nx) (estT : List (Loss.Meas (LogOf K)) → LogOf K)
-    (logf : Factor (LogOf K) → Factor (LogOf K)) (topEigs : List (Loss.Meas (LogOf K)) → List (LogOf K))
-    (logger : V) (cbVal : Option Cb → V) (s : Est (LogOf K)) (a : Args (LogOf K) V Cb) (hMD : a.engine = "MD")
-    (zs : List ZeroSpec) (hzs : s.cfg.structural_zeros = zeroVec s.cfg.domain zs)
-    (hfresh : s.cfg.warm_start = false ∨ s.model = none) :
-    ∃ g, (estimateG (gmC nx) estT (bpO nx) (mleO logf nx) topEigs logger cbVal s a).2.2 = some g ∧
-      (∀ p ∈ g.potentials, ∀ x ∈ p.2.vals.data.toList, 0 ≤ x.v) ∧
-      (zs = [] → ∀ p ∈ g.potentials, ∀ x ∈ p.2.vals.data.toList, 0 < x.v) := by
-  obtain ⟨h1, _, _⟩ := gen_estimate_closed (gmC nx) estT (bpO nx) (mleO logf nx) topEigs logger cbVal s a (Or.inl hMD)
-  have hr : solverRun (gmC nx) estT (bpO nx) (mleO logf nx) topEigs s a
-      = InfG.mirrorDescent (bpO nx (freshGM (gmC nx) estT s a)) (lossOf s.cfg (freshGM (gmC nx) estT s a) (measOf s a))
-          s.cfg.iters (theta0 (gmC nx) s (measOf s a)) (freshGM (gmC nx) estT s a).total := by
-    simp only [solverRun, hMD]; rfl
-  have hθ := gen_theta0_eq (gmC nx) s zs hzs hfresh (measOf s a)
-  refine ⟨_, h1, ?_, ?_⟩
-  · show CellsPos.VecP (fun x : K => 0 ≤ x) (solverRun (gmC nx) estT (bpO nx) (mleO logf nx) topEigs s a).potentials
-    rw [hr]
-    exact CellsPos.md_P _ zero_le_one (fun _ _ => mul_nonneg) _ _ _ _ _ (hθ ▸ CellsPos.theta0_nonneg _ _ zs)
-  · intro hzs0
-    subst hzs0
-    show CellsPos.VecP (fun x : K => 0 < x) (solverRun (gmC nx) estT (bpO nx) (mleO logf nx) topEigs s a).potentials
-    rw [hr]
-    exact CellsPos.md_P _ zero_lt_one (fun _ _ => mul_pos) _ _ _ _ _ (hθ ▸ CellsPos.theta0_pos _ _)
+/-- `gen_zero_in_all_answers_of_pots` is NOT vacuous: its hypotheses hold for the example model and potentials `exZP` carrying the
+declared zero `b = 0` (nonnegative cells, `Z ≠ 0`, `total = 100 > 0`) -/
+example := (gen_zero_in_all_answers_of_pots exNx exGM (by decide) (by decide) (by decide) ex_admissible exZs exZP ex_zerosIn).2
+  (CellsPos.theta0_nonneg _ _ exZs) (by decide +kernel : partition exD exZP ≠ 0) (by decide +kernel : (0 : ℚ) < exGM.total.v)
 
-/-- **THE ANSWERS OF THE RETURNED MODEL ARE ONE VALID DISTRIBUTION — HYPOTHESES ON THE INPUTS ONLY** (engine MD, the generated
-`_marginal_loss` of either metric, arbitrary measurements, cold call or first call).  `C08E.gen_estimate_answers_valid` asked
-the returned parameters to be nonnegative tables over the model's cliques (`PotsOK`) and `Z ≠ 0`.  Here `PotsOK` is PROVED
-(layout: `gen_estimate_zeros_end_to_end_closed`; sign: `gen_estimate_potentials_sign`), and
+/-- the hypotheses of `gen_md_from_setup_zeros_every_loss` on the estimator hold on the example estimator of C08E (no declared zero) -/
+example : exEst.cfg.structural_zeros = zeroVec exEst.cfg.domain [] ∧
+    (exEst.cfg.warm_start = false ∨ exEst.model = none) ∧ (∀ p ∈ exEst.cfg.domain, 0 < p.2) := by
+  refine ⟨rfl, Or.inl rfl, by decide⟩
 
-* with NO declared structural zero (`zs = []`) also `Z > 0` is proved (all log-potentials finite, domain without an attribute
-  of size 0): the four clauses hold unconditionally — `gen_estimate_answers_valid_nozeros`;
-* with declared zeros `Z ≠ 0` REMAINS a hypothesis: the zeros can rule out every assignment (`Z = 0`, the `0/0` of the
-  source), which no hypothesis on the layout excludes. -/
-theorem gen_estimate_answers_valid_closed (nx : Nx) (estT : List (Loss.Meas (LogOf K)) → LogOf K)
-    (logf : Factor (LogOf K) → Factor (LogOf K)) (topEigs : List (Loss.Meas (LogOf K)) → List (LogOf K))
-    (logger : V) (cbVal : Option Cb → V) (s : Est (LogOf K)) (a : Args (LogOf K) V Cb) (hMD : a.engine = "MD")
-    (zs : List ZeroSpec) (hzs : s.cfg.structural_zeros = zeroVec s.cfg.domain zs)
-    (hfresh : s.cfg.warm_start = false ∨ s.model = none)
-    (hd : s.cfg.domain.WF) (hne : s.cfg.domain.attrs ≠ []) (hsizes : ∀ p ∈ s.cfg.domain, 0 < p.2)
-    (hin : ∀ c ∈ inCliques s.cfg (measOf s a), c.Nodup ∧ ∀ x ∈ c, x ∈ s.cfg.domain.attrs)
-    (hadm : Admissible nx s.cfg.domain (inCliques s.cfg (measOf s a)) (modeOf s.cfg.elim_order))
-    (hz : ∀ z ∈ zs, z.zc.Nodup ∧ (∀ x ∈ z.zc, x ∈ s.cfg.domain.attrs) ∧
-      ∃ q ∈ modelCliques (gmC nx) s.cfg (measOf s a), JT.subset z.zc q = true) :
-    ∃ g, (estimateG (gmC nx) estT (bpO nx) (mleO logf nx) topEigs logger cbVal s a).2.2 = some g ∧
-      g.domain = s.cfg.domain ∧
-      PotsOK g.domain g.cliques g.potentials ∧
-      (zs = [] → 0 < partition g.domain g.potentials) ∧
-      ∀ m, g.marginals = some m → partition g.domain g.potentials ≠ 0 →
-        (∀ c ∈ g.cliques, ∀ σ, g.domain.Valid σ →
-          ((m.get c).sem σ).v = g.total.v * marginal g.domain g.potentials c σ / partition g.domain g.potentials) ∧
-        (0 ≤ g.total.v → ∀ c ∈ g.cliques, ∀ σ, g.domain.Valid σ → 0 ≤ ((m.get c).sem σ).v) ∧
-        ((∀ p ∈ g.domain, 0 < p.2) → ∀ c ∈ g.cliques,
-          sumOver g.domain c (fun _ => 0) (fun τ => ((m.get c).sem τ).v) = g.total.v) ∧
-        (∀ c1 ∈ g.cliques, ∀ c2 ∈ g.cliques, ∀ A : List Attr, (∀ x ∈ A, x ∈ c1) → (∀ x ∈ A, x ∈ c2) →
-          ∀ σ, g.domain.Valid σ →
-          sumOver g.domain (c1.filter (fun x => !A.contains x)) σ (fun τ => ((m.get c1).sem τ).v)
-            = sumOver g.domain (c2.filter (fun x => !A.contains x)) σ (fun τ => ((m.get c2).sem τ).v)) := by
-  obtain ⟨g, hg, hcl, hZI, _, _⟩ := gen_estimate_zeros_end_to_end_closed nx estT logf topEigs logger cbVal s a hMD zs hzs hfresh hd hne hsizes hin hadm hz
-  obtain ⟨g', hg', hdom, hval⟩ := gen_estimate_answers_valid nx estT logf topEigs logger cbVal s a hMD hd hne hin hadm
-  obtain ⟨g'', hg'', hnn, hpp⟩ := gen_estimate_potentials_sign nx estT logf topEigs logger cbVal s a hMD zs hzs hfresh
-  have e1 : g' = g := Option.some.inj (hg'.symm.trans hg)
-  have e2 : g'' = g := Option.some.inj (hg''.symm.trans hg)
-  subst e1; subst e2
-  have hclq := (gen_init_cliques_ok nx s.cfg.domain (inCliques s.cfg (measOf s a)) () (modeOf s.cfg.elim_order) hd hne hin hadm).2.2
-  have hpots : PotsOK g''.domain g''.cliques g''.potentials := by
-    rw [hdom]
-    exact potsOK_of_vecOK s.cfg.domain g''.cliques (by rw [hcl]; exact hclq) g''.potentials hZI.1 hnn
-  refine ⟨g'', hg, hdom, hpots, fun h0 => ?_, fun m hm hZ => hval m hm hpots hZ⟩
-  rw [hdom]
-  exact CellsPos.partition_pos s.cfg.domain hd g''.potentials (hpp h0) _ (CellsPos.valid_zero _ hsizes)
+theorem ex_modelCliques_ok : ∀ q ∈ modelCliques (gmC exNx) exEst.cfg (measOf exEst exArgs),
+    q.Nodup ∧ ∀ x ∈ q, x ∈ exEst.cfg.domain.attrs :=
+  (gen_init_cliques_ok exNx exEst.cfg.domain (inCliques exEst.cfg (measOf exEst exArgs)) () (modeOf exEst.cfg.elim_order)
+    (by decide) (by decide) (by rw [ex_inCliques]; decide) (by rw [ex_inCliques]; exact ex_admissible)).2.2
 
-/-- **no declared structural zero: unconditional** — every stored clique table of the object the generated
-`estimate(engine='MD')` returns is `total · marginal / Z` of the joint of the stored potentials with `Z > 0`; nonnegative;
-sums to the total; any two agree on shared attributes -/
-theorem gen_estimate_answers_valid_nozeros (nx : Nx) (estT : List (Loss.Meas (LogOf K)) → LogOf K)
-    (logf : Factor (LogOf K) → Factor (LogOf K)) (topEigs : List (Loss.Meas (LogOf K)) → List (LogOf K))
-    (logger : V) (cbVal : Option Cb → V) (s : Est (LogOf K)) (a : Args (LogOf K) V Cb) (hMD : a.engine = "MD")
-    (hzs : s.cfg.structural_zeros = [])
-    (hfresh : s.cfg.warm_start = false ∨ s.model = none)
-    (hd : s.cfg.domain.WF) (hne : s.cfg.domain.attrs ≠ []) (hsizes : ∀ p ∈ s.cfg.domain, 0 < p.2)
-    (hin : ∀ c ∈ inCliques s.cfg (measOf s a), c.Nodup ∧ ∀ x ∈ c, x ∈ s.cfg.domain.attrs)
-    (hadm : Admissible nx s.cfg.domain (inCliques s.cfg (measOf s a)) (modeOf s.cfg.elim_order)) :
-    ∃ g, (estimateG (gmC nx) estT (bpO nx) (mleO logf nx) topEigs logger cbVal s a).2.2 = some g ∧
-      g.domain = s.cfg.domain ∧ 0 < partition g.domain g.potentials ∧
-      ∀ m, g.marginals = some m →
-        (∀ c ∈ g.cliques, ∀ σ, g.domain.Valid σ →
-          ((m.get c).sem σ).v = g.total.v * marginal g.domain g.potentials c σ / partition g.domain g.potentials) ∧
-        (0 ≤ g.total.v → ∀ c ∈ g.cliques, ∀ σ, g.domain.Valid σ → 0 ≤ ((m.get c).sem σ).v) ∧
-        ((∀ p ∈ g.domain, 0 < p.2) → ∀ c ∈ g.cliques,
-          sumOver g.domain c (fun _ => 0) (fun τ => ((m.get c).sem τ).v) = g.total.v) ∧
-        (∀ c1 ∈ g.cliques, ∀ c2 ∈ g.cliques, ∀ A : List Attr, (∀ x ∈ A, x ∈ c1) → (∀ x ∈ A, x ∈ c2) →
-          ∀ σ, g.domain.Valid σ →
-          sumOver g.domain (c1.filter (fun x => !A.contains x)) σ (fun τ => ((m.get c1).sem τ).v)
-            = sumOver g.domain (c2.filter (fun x => !A.contains x)) σ (fun τ => ((m.get c2).sem τ).v)) := by
-  obtain ⟨g, h1, h2, _, h4, h5⟩ := gen_estimate_answers_valid_closed nx estT logf topEigs logger cbVal s a hMD [] hzs hfresh
-    hd hne hsizes hin hadm (fun z hz => by cases hz)
-  exact ⟨g, h1, h2, h4 rfl, fun m hm => h5 m hm (ne_of_gt (h4 rfl))⟩
+/-- `gen_md_from_setup_zeros_every_loss` is NOT vacuous and NOT degenerate: on the example estimator all its hypotheses hold for the
+loss function with constant value `⟨2⟩` (not `0`: `eq0 ⟨2⟩ = false`, so the generated loop RUNS its 3 iterations and stores
+`marginals`) and a constant gradient laid out on the model's cliques -/
+example : InfG.eq0 (⟨2⟩ : LogOf ℚ) = false := by decide +kernel
+example := gen_md_from_setup_zeros_every_loss (Cb := Nat) exNx (fun _ => (⟨1⟩ : LogOf ℚ)) exEst exArgs [] rfl (Or.inl rfl)
+  (by decide) (by decide) (by decide) (by rw [ex_inCliques]; decide) (by rw [ex_inCliques]; exact ex_admissible)
+  (fun z hz => by cases hz)
+  (fun _ => (⟨2⟩, CliqueVec.zerosV exD (modelCliques (gmC exNx) exEst.cfg (measOf exEst exArgs))))
+  (fun _ _ => vecOK_zerosV _ _ ex_modelCliques_ok) 3
 
-/-- the hypotheses of `gen_estimate_answers_valid_nozeros` hold on the example estimator of C08E -/
-example : exArgs.engine = "MD" ∧ exEst.cfg.structural_zeros = [] ∧ (exEst.cfg.warm_start = false ∨ exEst.model = none) ∧
-    (∀ p ∈ exEst.cfg.domain, 0 < p.2) := ⟨rfl, rfl, Or.inl rfl, by decide⟩
+end Example
 
 end PGM.C10E
